@@ -231,6 +231,7 @@ def _dim(rep):
                 n = sint("n")
                 st.assume(n.t >= 1)
                 st.ghost["n"] = n
+                st.ghost["concretize_bool_sums"] = True
                 atoms = TagAtoms(n, sym_cell("c"), sym_pbc("pbc"), sym_positions("pos", n), sym_int_rows("Z", n), tag=1, inside=False)
                 vals = (2, 0, 0, "3/10", 2, 0, "1/10", "1/5", 3)
                 for kk in range(9):
